@@ -10,6 +10,22 @@ COMMON_ASSUMPTIONS = [
 ]
 
 PROPS = {
+    "C07": dict(
+        verus=["runlength"],
+        not_decided="LZW, CCITT, Flate (dependency), ASCIIHex/ASCII85 (iterator adapters; outside Verus), PNG/TIFF predictors pending",
+    ),
+    "C08": dict(
+        verus=["runlength"],
+        not_decided="Flate/LZW bounded paths; ASCIIHex/ASCII85 limits; decode_stream_with_limit glue pending",
+    ),
+    "C21": dict(
+        verus=["tokenizer"],
+        not_decided="numeric operands and formatting, operator vocabulary dispatch, marked-content property lists, TJ arrays",
+    ),
+    "C27": dict(
+        verus=["pagelabels"],
+        not_decided="decimal formatting (u32::to_string), to_uppercase, range lookup and number-tree serialisation pending",
+    ),
     "C29": dict(
         verus=["lru"],
         not_decided="ObjectCache's RwLock wrapper (concurrency) is an argument in DESIGN.md, not a proof",
